@@ -76,6 +76,18 @@ CHECKS['C03'] = dict(
          'recorder. The persisted key text is pinned on purpose. Nested interceptions excluded (not captured by design).',
     technique='Hypothesis property-based testing with edit scripts (metamorphic) against a call-site journal')
 
+CHECKS['C02'] = dict(
+    engine='progsim', category='exploration', design='DESIGN.md 3 C02',
+    text='Hypothesis-generated pairs (recorded program, replayed program with renamed aliases, changed/dropped/added '
+         'calls) crossed with the full product of missing-key options (fallback lists/functions, run-original, '
+         'substitutes incl. falsy and callable, fail-on-missing-result, defaults), recording enabled/disabled, 1-3 '
+         'replays, on in-memory/file/S3 spy cassettes; every call site is compared with a reference model of the '
+         'documented policy order, the body journal with the run-original cases, the spy log and store snapshot with '
+         '"untouched".',
+    note='Reference model in props/C02.py (predict) written from the statement/README; the recording content it '
+         'consults comes from the harness journal of the live run, not from recorder internals.',
+    technique='Hypothesis property-based testing against a reference model of the missing-key policy')
+
 ENGINES = [
     ('progsim', 'pbt/progsim.py', 'program simulator: JSON program descriptions -> real decorated classes, undecorated '
                                   'twin, journals, fault injection, program strategies', ['C01', 'C02', 'C03', 'C04',
